@@ -117,6 +117,47 @@ def _opname(op):
     return str(op)
 
 
+_CAT_TXT = {'CATEGORY_DIGIT': r'\d', 'CATEGORY_NOT_DIGIT': r'\D', 'CATEGORY_SPACE': r'\s',
+            'CATEGORY_NOT_SPACE': r'\S', 'CATEGORY_WORD': r'\w', 'CATEGORY_NOT_WORD': r'\W'}
+
+
+def _cls_escape(cp):
+    ch = chr(cp)
+    if ch in '\\]^-[':
+        return '\\' + ch
+    if cp < 32 or cp == 127:
+        return '\\x%02x' % cp
+    return ch
+
+
+def atom_text(op, av):
+    """regex source text of a single-character atom (used to query CPython's matcher for its exact set)"""
+    name = _opname(op)
+    if name == 'LITERAL':
+        return '[' + _cls_escape(av) + ']'
+    if name == 'NOT_LITERAL':
+        return '[^' + _cls_escape(av) + ']'
+    if name == 'ANY':
+        return '.'
+    if name == 'IN':
+        out = ''
+        neg = False
+        for o, a in av:
+            on = _opname(o)
+            if on == 'NEGATE':
+                neg = True
+            elif on == 'LITERAL':
+                out += _cls_escape(a)
+            elif on == 'RANGE':
+                out += _cls_escape(a[0]) + '-' + _cls_escape(a[1])
+            elif on == 'CATEGORY':
+                out += _CAT_TXT[_opname(a)]
+            else:
+                raise RxError('class item %s' % on)
+        return '[' + ('^' if neg else '') + out + ']'
+    raise RxError('not a character atom: %s' % name)
+
+
 class NFA(object):
     def __init__(self):
         self.n = 0
@@ -144,7 +185,10 @@ class Builder(object):
         name = _opname(op)
         ic = bool(self.flags & re.IGNORECASE)
         if ic:
-            raise RxError('IGNORECASE not supported')
+            # exact case-insensitive semantics: ask CPython's own matcher about the single-character atom
+            txt = atom_text(op, av)
+            f = re.IGNORECASE | (re.ASCII if (self.flags & re.ASCII) else 0) | (re.DOTALL if (self.flags & re.DOTALL) else 0)
+            return CharSet(_intervals_of(txt, f)).intersect(self.nosym)
         if name == 'LITERAL':
             return CharSet([(av, av + 1)])
         if name == 'NOT_LITERAL':
